@@ -211,5 +211,13 @@ int main(int argc, char **argv)
             printf("bad-op\n");
         fflush(stdout);
     }
+    /* release everything: under LSan (leak tier of the check) whatever fsg_model_free, the reader's
+     * error paths or the closure's glist handling left behind is reported */
+    if (fsg) fsg_model_free(fsg);
+    if (dict) dict_free(dict);
+    if (mdef) bin_mdef_free(mdef);
+    if (config) config_free(config);
+    free(wtext);
+    logmath_free(lmath);
     return 0;
 }
